@@ -189,6 +189,11 @@ func (m *Module) Definition(ident string) Definition {
 	if x, found := m.dataDefsIndex[ident]; found {
 		return x
 	}
+	// members of choices are found whichever way they got there
+	// (uses or choice inside a case, augment)
+	if x := findInChoices(m.dataDefs, ident); x != nil {
+		return x
+	}
 	
 	return nil
 }
@@ -586,6 +591,11 @@ func (m *ChoiceCase) Definition(ident string) Definition {
 	if x, found := m.dataDefsIndex[ident]; found {
 		return x
 	}
+	// members of choices are found whichever way they got there
+	// (uses or choice inside a case, augment)
+	if x := findInChoices(m.dataDefs, ident); x != nil {
+		return x
+	}
 	
 	return nil
 }
@@ -878,6 +888,11 @@ func (m *Container) Definition(ident string) Definition {
 	}
 	
 	if x, found := m.dataDefsIndex[ident]; found {
+		return x
+	}
+	// members of choices are found whichever way they got there
+	// (uses or choice inside a case, augment)
+	if x := findInChoices(m.dataDefs, ident); x != nil {
 		return x
 	}
 	
@@ -1174,6 +1189,11 @@ func (m *List) Definition(ident string) Definition {
 	}
 	
 	if x, found := m.dataDefsIndex[ident]; found {
+		return x
+	}
+	// members of choices are found whichever way they got there
+	// (uses or choice inside a case, augment)
+	if x := findInChoices(m.dataDefs, ident); x != nil {
 		return x
 	}
 	
@@ -2017,6 +2037,11 @@ func (m *Grouping) Definition(ident string) Definition {
 	if x, found := m.dataDefsIndex[ident]; found {
 		return x
 	}
+	// members of choices are found whichever way they got there
+	// (uses or choice inside a case, augment)
+	if x := findInChoices(m.dataDefs, ident); x != nil {
+		return x
+	}
 	
 	return nil
 }
@@ -2462,6 +2487,11 @@ func (m *RpcInput) Definition(ident string) Definition {
 	if x, found := m.dataDefsIndex[ident]; found {
 		return x
 	}
+	// members of choices are found whichever way they got there
+	// (uses or choice inside a case, augment)
+	if x := findInChoices(m.dataDefs, ident); x != nil {
+		return x
+	}
 	
 	return nil
 }
@@ -2638,6 +2668,11 @@ func (m *RpcOutput) addIfFeature(i *IfFeature) {
 // Definition can be a data defintion, action or notification
 func (m *RpcOutput) Definition(ident string) Definition {
 	if x, found := m.dataDefsIndex[ident]; found {
+		return x
+	}
+	// members of choices are found whichever way they got there
+	// (uses or choice inside a case, augment)
+	if x := findInChoices(m.dataDefs, ident); x != nil {
 		return x
 	}
 	
@@ -2923,6 +2958,11 @@ func (m *Notification) addIfFeature(i *IfFeature) {
 // Definition can be a data defintion, action or notification
 func (m *Notification) Definition(ident string) Definition {
 	if x, found := m.dataDefsIndex[ident]; found {
+		return x
+	}
+	// members of choices are found whichever way they got there
+	// (uses or choice inside a case, augment)
+	if x := findInChoices(m.dataDefs, ident); x != nil {
 		return x
 	}
 	
@@ -3213,6 +3253,11 @@ func (m *Augment) Definition(ident string) Definition {
 	}
 	
 	if x, found := m.dataDefsIndex[ident]; found {
+		return x
+	}
+	// members of choices are found whichever way they got there
+	// (uses or choice inside a case, augment)
+	if x := findInChoices(m.dataDefs, ident); x != nil {
 		return x
 	}
 	
@@ -4184,6 +4229,11 @@ func (m *Extension) Definition(ident string) Definition {
 	}
 	
 	if x, found := m.dataDefsIndex[ident]; found {
+		return x
+	}
+	// members of choices are found whichever way they got there
+	// (uses or choice inside a case, augment)
+	if x := findInChoices(m.dataDefs, ident); x != nil {
 		return x
 	}
 	
